@@ -495,7 +495,7 @@ def _tz(x):
     return x if z3.is_expr(x) else None
 
 
-def equal_to_snapshot(v: V, obj, snap, values_only=False):
+def equal_to_snapshot(v: V, obj, snap, values_only=False, subset=False):
     """z3 term (sym) / bool (conc): obj is structurally identical to the snapshot — same rows present, same cell
     values and null flags, same labels, and (unless values_only) same names/dtypes/column order."""
     if snap[0] == "R":
@@ -535,7 +535,10 @@ def equal_to_snapshot(v: V, obj, snap, values_only=False):
         return v.holds(False)
     terms = []
     for i in range(len(present)):
-        terms.append(obj.present[i] == present[i])
+        if not subset:
+            terms.append(obj.present[i] == present[i])
+        else:
+            terms.append(z3.Implies(obj.present[i], present[i]))
         row = []
         for (_, xs, ns, _), (_, ys, ms, _) in zip(ocols, cols):
             if z3.is_expr(xs[i]) and z3.is_expr(ys[i]) and xs[i].sort() != ys[i].sort():
@@ -547,7 +550,7 @@ def equal_to_snapshot(v: V, obj, snap, values_only=False):
                 row.append(z3.And(ns[i] == ms[i], z3.Or(ns[i], xs[i] == ys[i])))
         for la, lb in zip(oidx[1], idx[1]):
             row.append(la[i] == lb[i])
-        terms.append(z3.Implies(present[i], z3.And(*row) if row else z3.BoolVal(True)))
+        terms.append(z3.Implies(obj.present[i] if subset else present[i], z3.And(*row) if row else z3.BoolVal(True)))
     return v.holds(z3.And(*terms) if terms else z3.BoolVal(True))
 
 
